@@ -342,7 +342,8 @@ def handle (j : Json) : Json :=
     match attrsOf (getD j "attrs"), bool? (getD j "callable"), bool? (getD j "split"), bool? (getD j "none"),
         optStr (getD j "name"), optStr (getD j "name2"), str? (getD j "adapter") with
     | some attrs, some callable, some isSplit, some isNone, some name, some name2, some ad =>
-      let c := capsOf attrs callable isSplit isNone
+      let c := { capsOf attrs callable isSplit isNone with
+        givenCallable := (getD j "given_callable").getBool?.toOption != some false }
       let den : Json := match specOf (getD j "el") with
         | some sp => denJson ad sp name name2
         | none => Json.null
